@@ -57,14 +57,22 @@ def version_floor(text):
     return "1.4"
 
 
+_VERSIONISH_1 = re.compile(r"^\s*v?\d+(\.\d+)*\.?\s*$")
+_VERSIONISH_2 = re.compile(r"^\s*v?\d+(\.\d+)*[-+a-zA-Z].*$", re.S)
+
+
 def version_clear(text):
     """True when the version rule's verdict for text is beyond dispute (see DESIGN C18)."""
     if not isinstance(text, str):
         return True
     if version_tuple(text) is not None:
         return True
-    # clearly not a version: no digit at all, or empty
-    return not any(ch.isdigit() for ch in text)
+    # clearly not a version: no digit at all, or empty ...
+    if not any(ch.isdigit() for ch in text):
+        return True
+    # ... or digits in a shape nobody would read as a version: neither digits-and-dots (possibly with a leading v, a
+    # trailing dot, blanks around - whose verdict is left open) nor a version followed by a letter / sign (1.4a, 2.0-beta)
+    return not _VERSIONISH_1.match(text) and not _VERSIONISH_2.match(text)
 
 
 def describe(text, interner):
